@@ -11,6 +11,7 @@ use ant_protocol::storage::{try_deserialize_record, RecordType, Scratchpad, Tran
 use ant_protocol::NetworkAddress;
 use ant_registers::{RegisterOp, SignedRegister};
 use libp2p::kad::RecordKey;
+use libp2p::PeerId;
 use proptest::prelude::*;
 use serde::{Deserialize, Serialize};
 use std::collections::{BTreeMap, BTreeSet};
@@ -605,6 +606,89 @@ fn check_range(case: &RangeCase, ctx: &mut Ctx) {
 }
 
 
+
+// ------------------------------------------------------------------------------------------------
+// section advert_fanout: "a node advertises every record it holds to its replication targets" — to ALL
+// of them, also when more peers than a close group has members lie within its responsible range.
+// One real node, a routing table of 6..16 further peers, a range reaching the r-th closest of them.
+// ------------------------------------------------------------------------------------------------
+
+#[derive(Clone, Debug, Serialize, Deserialize)]
+pub struct FanoutCase {
+    pub peers: u8,
+    /// the responsible range reaches exactly the peer of this closeness rank (monotone pick)
+    pub rank: u16,
+    pub records: u8,
+    pub seed: u8,
+}
+
+fn fanout_strategy() -> BoxedStrategy<FanoutCase> {
+    (6u8..=16, any::<u16>(), 1u8..4, any::<u8>()).prop_map(|(peers, rank, records, seed)| FanoutCase { peers, rank, records, seed }).boxed()
+}
+
+fn check_fanout(case: &FanoutCase, ctx: &mut Ctx) {
+    use sha2::{Digest, Sha256};
+    let mut cl = Cluster::new(&[360], None);
+    let me: [u8; 32] = Sha256::digest(cl.nodes[0].peer.to_bytes()).into();
+    let dist = |bytes: &[u8]| -> U256 {
+        let h: [u8; 32] = Sha256::digest(bytes).into();
+        let mut x = [0u8; 32];
+        for i in 0..32 {
+            x[i] = me[i] ^ h[i];
+        }
+        U256::from_be_bytes(x)
+    };
+    let mut known: Vec<(U256, PeerId)> = vec![];
+    for i in 0..case.peers as u64 {
+        let p = fix::peer(5000 + case.seed as u64 * 64 + i);
+        if cl.add_peer(0, p) {
+            known.push((dist(&p.to_bytes()), p));
+        }
+    }
+    known.sort();
+    if known.len() < 6 {
+        ctx.label("routing_table_took_fewer_than_six_peers");
+        return;
+    }
+    for j in 0..case.records as u64 {
+        cl.seed_record(0, fix::chunk_record(&fix::chunk(7700 + case.seed as u64 * 8 + j, 24 + j as usize)));
+    }
+    let held: BTreeSet<Vec<u8>> = cl.local_list(0).keys().map(|a| a.to_record_key().to_vec()).collect();
+    // the range reaches the peer of rank r (r >= 5: at least a close group lies within it)
+    let r = 4 + pick_idx(case.rank, known.len() - 4);
+    let range = known[r].0;
+    let want: Vec<PeerId> = known.iter().filter(|(d, _)| *d <= range).map(|(_, p)| *p).collect();
+    {
+        let d = &mut cl.nodes[0].driver;
+        cl.rt.block_on(async move {
+            d.verif_set_distance_range(range);
+            d.verif_reset_replication_throttle();
+            let _ = d.verif_handle_local_cmd(LocalSwarmCmd::TriggerIntervalReplication);
+        });
+    }
+    cl.settle();
+    let got: BTreeSet<PeerId> = cl.replicate_to_strangers.iter().filter(|(f, _, _)| *f == 0).map(|(_, p, _)| *p).collect();
+    ctx.label_if(want.len() > 5, "more_peers_in_range_than_a_close_group_has_members");
+    ctx.label(format!("peers_in_range_{}", want.len().min(12)));
+    ctx.nontrivial_if(want.len() > 5);
+    ctx.canon = Some(format!("{case:?}"));
+    let missed: Vec<usize> = want.iter().enumerate().filter(|(_, p)| !got.contains(*p)).map(|(i, _)| i).collect();
+    if !missed.is_empty() {
+        ctx.fail(
+            "in_range_neighbour_received_no_replication_list",
+            format!("{} routing-table peers lie within the node's responsible range (ranks 0..{}); no list went to the peers of closeness rank {missed:?} ({} lists sent)", want.len(), want.len() - 1, got.len()),
+        );
+        return;
+    }
+    for (_, p, keys) in cl.replicate_to_strangers.iter().filter(|(f, p, _)| *f == 0 && want.contains(p)) {
+        let advertised: BTreeSet<Vec<u8>> = keys.iter().map(|(a, _)| a.to_record_key().to_vec()).collect();
+        if !held.is_subset(&advertised) {
+            ctx.fail("held_record_not_advertised_to_an_in_range_neighbour", format!("the list for {p:?} carries {} of the {} held records", advertised.len(), held.len()));
+            return;
+        }
+    }
+}
+
 // ------------------------------------------------------------------------------------------------
 // section full_node: a node whose store is FULL still converges on the mutable records it holds —
 // including the one that is its farthest record, which sits exactly on the bound the replication
@@ -954,6 +1038,11 @@ pub fn run(cfg: RunCfg) {
         rep, "advert_with_range", (600, 20_000), 16,
         "a node with a responsible range set (at / just below the distance of one of its held records) triggers replication: the list must carry every held record; non-trivial: some held record lies beyond the range",
         range_strategy, check_range
+    );
+    vh_core::section!(
+        rep, "advert_fanout", (600, 20_000), 16,
+        "one node with 6-16 routing-table peers and a responsible range reaching the r-th closest of them (r >= 5) triggers replication: every peer within the range (independent SHA-256/XOR metric) gets a list carrying every held record. non-trivial: more than 5 peers in range",
+        fanout_strategy, check_fanout
     );
     vh_core::section!(
         rep, "forced_fetch", (800, 30_000), 16,
